@@ -248,7 +248,7 @@ def split_segments(xs, pred):
 def time_windows(xs, cfg, env=None):
     """-> list of dict(idx=[parent indices], items=[...], close=trigger) incl. empty windows.
     Direct transcription of the C07 statement."""
-    tm = fn(cfg.get('time', 'id'), env)
+    tm = fn('id', env)      # 'dt' maps ints to datetimes monotonically and exactly: integer arithmetic decides the same
     active, inactive = cfg.get('active'), cfg.get('inactive')
     closing = fn(cfg['closing'], env) if cfg.get('closing') else None
     include = cfg.get('include', True)
